@@ -1,4 +1,4 @@
-use std::fmt;
+use std::{fmt, rc::Rc};
 
 use crate::{
     ink_list::InkList,
@@ -187,13 +187,24 @@ impl Value {
         }
     }
 
-    pub fn retain_list_origins_for_assignment(old_value: &dyn RTObject, new_value: &dyn RTObject) {
+    /// When an empty list is assigned over a list, it keeps the origin names of the
+    /// value it replaces. The value object being assigned may be shared (another
+    /// variable, story content, a look-ahead snapshot), so it is never modified in
+    /// place: a copy carrying the retained origins is returned instead.
+    pub fn retain_list_origins_for_assignment(
+        old_value: &dyn RTObject,
+        new_value: Rc<Value>,
+    ) -> Rc<Value> {
         if let Some(old_list) = Self::get_value::<&InkList>(old_value)
-            && let Some(new_list) = Self::get_value::<&InkList>(new_value)
+            && let Some(new_list) = Self::get_value::<&InkList>(new_value.as_ref())
             && new_list.items.is_empty()
         {
-            new_list.set_initial_origin_names(old_list.get_origin_names());
+            let retained = new_list.clone();
+            retained.set_initial_origin_names(old_list.get_origin_names());
+            return Rc::new(Value::new::<InkList>(retained));
         }
+
+        new_value
     }
 
     pub fn get_cast_ordinal(&self) -> u8 {
